@@ -21,16 +21,16 @@ TInit == tid \in 1..Len(Traces) /\ l = 1 /\ ph = "Start" /\ q = [conts |-> << >>
 AsPlaced(p) == LET F == ImgSeq(p) IN [k \in 1..Len(F) |-> F[k].off]
 Load   == /\ Is("Load") /\ ph = "Start" /\ ContainersFixed(lay, E.p)
           /\ ph' = "Loaded" /\ q' = E.p /\ Adv
-Update == /\ Is("Update") /\ ph \in {"Loaded", "Assigned"}
+Update == /\ Is("Update") /\ ph \in {"Loaded", "Assigned", "Exported"}
           /\ ContainersFixed(lay, E.p) /\ ExplicitKept(lay, E.p)
-          /\ (ph = "Assigned" => Stable(q, E.p))                       \* a locked object keeps every offset
+          /\ (ph # "Loaded" => Stable(q, E.p))                         \* a locked object keeps every offset
           /\ (IMode /\ ph = "Loaded" /\ lay.drift => AsPlaced(E.p) = Asg(lay.al, lay.flat, 1, lay.start))
-          /\ ph' = "Assigned" /\ q' = E.p /\ Adv
-Export == /\ Is("Export") /\ ph = "Assigned" /\ Stable(q, E.p)
+          /\ ph' = (IF ph = "Loaded" THEN "Assigned" ELSE ph) /\ q' = E.p /\ Adv
+Export == /\ Is("Export") /\ ph \in {"Assigned", "Exported"} /\ Stable(q, E.p)
           /\ (E.ok => ~lay.refuse /\ NoOverlap(E.p) /\ InsideFile(E.p, E.fileLen))
-          /\ (~E.ok => l = Len(T))                                     \* nothing follows a refused export
-          /\ UNCHANGED <<ph, q>> /\ Adv
-Parse  == /\ Is("Parse") /\ ph = "Assigned" /\ ContainersFixed(lay, E.p) /\ Stable(q, E.p)    \* parse restores the same offsets and sizes
+          /\ (~E.ok => ph = "Assigned" /\ l = Len(T))                 \* only the first export may be refused (decided by AhabRomTrace), nothing follows
+          /\ ph' = "Exported" /\ UNCHANGED q /\ Adv
+Parse  == /\ Is("Parse") /\ ph = "Exported" /\ ContainersFixed(lay, E.p) /\ Stable(q, E.p)    \* parse restores the same offsets and sizes
           /\ UNCHANGED <<ph, q>> /\ Adv
 TNext == Load \/ Update \/ Export \/ Parse
 Constr == IF TLCGet(tid) < l THEN TLCSet(tid, l) ELSE TRUE
